@@ -62,8 +62,21 @@ pub struct LookupSpec {
     pub looking: Vec<ColSpec>,
     /// optional 0/1 filter column per looking column
     pub filters: Vec<Option<usize>>,
+    /// per looking column: the filter reads the filter column's value in the *next* row
+    #[serde(default)]
+    pub filters_next: Vec<bool>,
     pub table: usize,
     pub freq: usize,
+}
+
+impl LookupSpec {
+    pub fn filter_reads_next(&self, k: usize) -> bool {
+        self.filters_next.get(k).copied().unwrap_or(false)
+    }
+    /// Value of the k-th looking column's filter at row r (None = no filter).
+    pub fn filter_value(&self, k: usize, rows: &[Vec<u64>], r: usize) -> Option<u64> {
+        self.filters[k].map(|fc| if self.filter_reads_next(k) { rows[(r + 1) % rows.len()][fc] } else { rows[r][fc] })
+    }
 }
 
 #[derive(Clone, Debug, PartialEq, Serialize, Deserialize)]
@@ -142,14 +155,10 @@ impl Def {
             let mut want: BTreeMap<u64, u64> = BTreeMap::new();
             for r in 0..rows.len() {
                 for (k, cs) in l.looking.iter().enumerate() {
-                    let on = match l.filters[k] {
-                        Some(fc) => rows[r][fc] == 1,
-                        None => true,
-                    };
-                    if let Some(fc) = l.filters[k] {
-                        if rows[r][fc] > 1 {
-                            return Some((li, format!("filter value not boolean at row {r}")));
-                        }
+                    let fv = l.filter_value(k, rows, r);
+                    let on = fv.map_or(true, |x| x == 1);
+                    if fv.map_or(false, |x| x > 1) {
+                        return Some((li, format!("filter value not boolean at row {r}")));
                     }
                     if on {
                         *want.entry(Self::col_value(cs, rows, r)).or_insert(0) += 1;
@@ -281,7 +290,8 @@ impl<const COLS: usize, const PIS: usize> Stark<F, 2> for SimStark<COLS, PIS> {
                 columns: l.looking.iter().map(colspec_to_column).collect(),
                 table_column: Column::single(l.table),
                 frequencies_column: Column::single(l.freq),
-                filter_columns: l.filters.iter().map(|f| match f {
+                filter_columns: l.filters.iter().enumerate().map(|(k, f)| match f {
+                    Some(c) if l.filter_reads_next(k) => Filter::new_simple(Column::single_next_row(*c)),
                     Some(c) => Filter::new_simple(Column::single(*c)),
                     None => Filter::default(),
                 }).collect(),
